@@ -198,6 +198,13 @@ func (r *Runner) execMacro(a Action) {
 				r.Feat["isolation>=5-election-timeouts"]++
 			}
 		}
+		// a latent disruptor: some other server (e.g. one without pre-vote
+		// that was isolated earlier) already carries a term above the leader's
+		for _, id := range r.ids {
+			if in := w.Servers[id].Inst; in != nil && !in.DeadLocked() && in.R != nil && L != nil && in.R.CurrentTerm() > rec.term {
+				exempt = true
+			}
+		}
 		r.isolated = map[string]*isoRec{}
 		if rec.leader != "" && len(rec.servers) > 0 && !exempt {
 			r.rejoins = append(r.rejoins, rec)
